@@ -23,6 +23,7 @@ import (
 
 	"verifmc/explore"
 	"verifmc/hs"
+	"verifshim/vsync"
 )
 
 type cfg struct {
@@ -50,6 +51,8 @@ type cfg struct {
 	// buffer, so that the request goes out in several writes (some from inside the option and
 	// header writers)
 	longRequest bool
+	// gateErr: the watcher's call of ctx.Err() is a scheduling point (E4)
+	gateErr bool
 }
 
 func (c cfg) String() string {
@@ -74,6 +77,9 @@ func (c cfg) String() string {
 	}
 	if c.noDeadlines {
 		s += " transport-refusing-deadlines"
+	}
+	if c.gateErr {
+		s += " ctx.Err()-is-a-scheduling-point + a second dial on the recycled pools"
 	}
 	return s
 }
@@ -130,7 +136,7 @@ func response(key string) []byte {
 
 // execute runs one execution: every nondeterministic decision comes from c.
 func execute(c *explore.Chooser, cf cfg, t *explore.T) *explore.Fail {
-	w := &world{now: t0}
+	w := &world{now: t0, gateErr: cf.gateErr}
 	w.install()
 	defer uninstall()
 	var ctx context.Context = context.Background()
@@ -418,6 +424,91 @@ func execute(c *explore.Chooser, cf cfg, t *explore.T) *explore.Fail {
 	return nil
 }
 
+// probeDial is the second dial of an E4 execution: one more Dial on the pools the first one left
+// behind (recycling mode), against a peer that never answers, with a context that is cancelled
+// once the dial is blocked; every gate is released as soon as it can be (one fixed schedule).
+// Whatever the first dial went through, this one has to end with the context's error and a
+// closed conn.
+func probeDial() *explore.Fail {
+	w := &world{now: t0}
+	w.install()
+	defer uninstall()
+	hc := &hctx{w: w, name: "user", done: make(chan struct{})}
+	w.ctxs = append(w.ctxs, hc)
+	w.peer = peerScript{silentAt: 0}
+	d := ws.Dialer{}
+	d.NetDial = func(dctx context.Context, network, addr string) (net.Conn, error) {
+		a := w.park(&call{kind: "dial"})
+		if a.err != nil {
+			return nil, a.err
+		}
+		return a.conn, nil
+	}
+	var out dialOutcome
+	done := make(chan struct{})
+	go runDial(d, "", hc, "ws://example.com/chat", &out, done)
+	cancelled, returned := false, false
+	var trace []string
+	for step := 0; step < 200 && !returned; step++ {
+		waitQuiescent()
+		select {
+		case <-done:
+			returned = true
+			continue
+		default:
+		}
+		w.mu.Lock()
+		released := false
+		for _, pc := range w.parked {
+			if ok, opts := w.releasable(pc); ok {
+				trace = append(trace, w.release(pc, opts[0]))
+				released = true
+				break
+			}
+		}
+		if !released {
+			if cancelled {
+				w.mu.Unlock()
+				break
+			}
+			hc.cancel(context.Canceled)
+			cancelled = true
+			trace = append(trace, "cancel")
+		}
+		w.mu.Unlock()
+	}
+	if !returned {
+		w.abort()
+		<-done
+		for i := 0; i < 1000 && len(snapshot()) != 0; i++ {
+			runtime.Gosched()
+		}
+		return explore.Failf("second-dial-on-recycled-pools-does-not-return-after-cancel", "cancelled=%v, yet the second Dial is blocked with no conn call that can complete\ntrace of the second dial: %s\nconn calls: %v", cancelled, strings.Join(trace, " "), w.log)
+	}
+	gs := waitQuiescent()
+	if out.br != nil {
+		ws.PutReader(out.br)
+	}
+	w.mu.Lock()
+	defer w.mu.Unlock()
+	tr := strings.Join(trace, " ")
+	if out.err == nil {
+		return explore.Failf("second-dial-on-recycled-pools-succeeds-against-a-silent-peer", "trace: %s", tr)
+	}
+	if out.err != context.Canceled {
+		return explore.Failf("second-dial-on-recycled-pools-error-is-not-the-contexts", "err=%v\ntrace: %s", out.err, tr)
+	}
+	if w.connMade && !w.closed {
+		return explore.Failf("second-dial-on-recycled-pools-error-but-conn-not-closed", "trace: %s", tr)
+	}
+	for _, g := range gs {
+		if g.watcher {
+			return explore.Failf("second-dial-on-recycled-pools-watcher-goroutine-leaked", "trace: %s", tr)
+		}
+	}
+	return nil
+}
+
 func returnedAndDrained(returned bool, w *world) bool { return false }
 
 func errClass(err error, hc *hctx) string {
@@ -516,6 +607,28 @@ func main() {
 				})
 			}
 			t.Note("real Dialer.Dial (overlay build: virtual time.Now, virtual context.WithDeadline); NetDial and every Read/Write/SetDeadline/Close of the conn are gates; environment events: cancel, virtual time passing the dial timeout / the context deadline; all orders explored with state pruning; quiescence by runtime.Stack scheduler states")
+		})
+		r.Part("E4-two-dials-on-recycled-pools-with-ctx.Err()-as-a-scheduling-point", func(t *explore.T) {
+			for _, ck := range []string{"cancellable", "deadline"} {
+				for _, to := range []string{"none", "short"} {
+					for _, p := range []string{"responsive1", "silent0", "silent1"} {
+						if !t.Thorough() && (to == "short" && p == "silent1") {
+							continue
+						}
+						cf := cfg{ctxKind: ck, timeout: to, peer: p, scheme: "ws", gateErr: true}
+						t.Explore(cf.String(), explore.ExploreOpts{Bound: -1, UseKeys: true, MaxExec: 200000}, func(c *explore.Chooser) *explore.Fail {
+							vsync.SetMode(vsync.LIFO)
+							vsync.ResetAll()
+							defer vsync.SetMode(vsync.FreshPoison)
+							if f := execute(c, cf, t); f != nil {
+								return f
+							}
+							return probeDial()
+						})
+					}
+				}
+			}
+			t.Note("as E1, plus: the watcher goroutine's call of ctx.Err() is a gate of its own (the caller of Dial may run while the watcher is inside the method), the pools recycle (LIFO), and after every explored schedule of the first dial a second Dial runs on what the first one put back: silent peer, cancel once it is blocked, one fixed schedule - it must end with context.Canceled and a closed conn")
 		})
 		r.Part("E2-both-ready-select-coin(supplementary,sampling)", func(t *explore.T) {
 			t.Do(func() string { return "context cancelled before Dial, ungated conn, 200 runs" }, func() *explore.Fail {
